@@ -55,7 +55,7 @@ theorem valueOK_namespace_facts {p ns : Nat} (h : valueOK env (.namespace p ns) 
       (ns ≠ Env.noNamespace → env.namespaceStr ns ≠ []) := by
   simp only [valueOK, Bool.and_eq_true, Bool.or_eq_true, beq_iff_eq, bne_iff_ne, ne_eq,
     Bool.not_eq_true', List.isEmpty_eq_false_iff] at h
-  obtain ⟨⟨⟨⟨h1, h2⟩, h3⟩, h4⟩, _⟩ := h
+  obtain ⟨⟨⟨⟨⟨h1, h2⟩, _⟩, h3⟩, h4⟩, _⟩ := h
   refine ⟨h1, h2, fun hp => ?_, fun hn => ?_⟩
   · rcases h3 with h3 | h3
     · exact absurd h3 hp
